@@ -420,7 +420,7 @@ Theorem session_equiv_full_thm (h : list input) (k : nat) (e : tm) :
 Proof.
   set (s := fst (sess_run empty_session h)).
   destruct (session_sinv h) as (G & H & ER & C). fold s in H, ER, C.
-  unfold sess_step, sess_step_with.
+  unfold sess_step, sess_step_with, sess_step_gen.
   destruct (force (S k) k (sheap s) (CTm e, stop s)) as [r [[fr h'] k']] eqn:Ef. cbn [snd].
   apply res_ok_data_outcome.
   assert (EQ : equiterm (fun n => seval n e (top_senv (defs_of h) ENil))
@@ -440,7 +440,7 @@ Theorem session_equiv_query_thm (h : list input) (k : nat) (x : string) (path : 
 Proof.
   set (s := fst (sess_run empty_session h)).
   destruct (session_sinv h) as (G & H & ER & C). fold s in H, ER, C.
-  unfold sess_step, sess_step_with.
+  unfold sess_step, sess_step_with, sess_step_gen.
   destruct (query k (sheap s) (CTm (Var x), stop s) path) as [r [[fr h'] k']] eqn:Eq. cbn [snd].
   assert (EQ : equiterm (fun n => seval n (Var x) (top_senv (defs_of h) ENil))
                         (sden (SC (Var x) (top_senv (defs_of h) ENil)) [])).
